@@ -748,7 +748,8 @@ class StretchyTreeMatcher:
             std_field = stdTup[0]
             std_value = stdTup[1]
 
-            if ins_value is None:
+            if ins_value is None and not (isinstance(ins, ast.Constant) and ins_field == "value"):
+                # an absent optional field; the literal None is content to compare
                 continue
 
             ignore_field = ins_field in ignores
@@ -771,7 +772,9 @@ class StretchyTreeMatcher:
                         break
                     # TODO: make this a smarter comparison, maybe handle dictionaries, f-strings, tuples, etc.
                     if is_primitive(inssub_value):
-                        is_match = inssub_value == stdsub_value
+                        # 1, 1.0 and True are different literals
+                        is_match = (type(inssub_value) is type(stdsub_value) and
+                                    inssub_value == stdsub_value)
         if is_match:
             mapping = AstMap()  # return MAPPING
             mapping.add_node_pairing(ins_node, std_node)
